@@ -5,7 +5,7 @@
    the RFC constraint matrix - precomputed by TLC for all 2^5 + 2^4 packet subsets.  Every arrival order with
    repetitions, every interleaving of the blocks, every continuation after completion and every clone point is
    a path of this graph. *)
-EXTENDS Rfc6330, TLC
+EXTENDS Rfc6330, TLC, Json
 Ks == <<2, 1>>
 CONSTANT Univ
 UnivQuick == <<{0, 1, 2, 18, 16777215}, {0, 2, 133, 500}>>      \* {0,18} (K=2) and {133} (K=1) are rank deficient
@@ -17,19 +17,27 @@ RankOracle(K, S) == FullRank(Pre10, ParamTab[1], IsisOf(K, ParamTab[1], S))
 DecTab == TLCEval([b \in 1..2 |-> TLCEval([S \in SUBSET Univ[b] |-> Cardinality(S) >= Ks[b] /\ RankOracle(Ks[b], S)])])   \* TLCEval: function constructors are lazy
 TabOracle(K, S) == DecTab[IF K = 2 THEN 1 ELSE 2][S]
 
-VARIABLES v_ks, v_recv, v_memo, v_cloned
-vars == <<v_ks, v_recv, v_memo, v_cloned>>
+CONSTANTS EmitHist, HistLen        \* EmitHist: carry the history of actions and print finished behaviours (simulation mode, spec -> impl)
+VARIABLES v_ks, v_recv, v_memo, v_cloned, v_hist
+vars == <<v_ks, v_recv, v_memo, v_cloned, v_hist>>
 C == INSTANCE Codec WITH DecOracle <- TabOracle
 
 Active == IF v_cloned THEN {1, 2} ELSE {1}
 Init == /\ v_ks = Ks
         /\ v_recv = [d \in {1, 2} |-> [b \in 0..1 |-> {}]]
         /\ v_memo = [d \in {1, 2} |-> [b \in 0..1 |-> FALSE]]
-        /\ v_cloned = FALSE
-Next == \/ \E d \in Active, b \in 0..1 : \E e \in Univ[b + 1] : C!Deliver(d, b, e) /\ UNCHANGED <<v_ks, v_cloned>>
-        \/ ~v_cloned /\ C!Clone(1, 2) /\ v_cloned' = TRUE /\ UNCHANGED v_ks
+        /\ v_cloned = FALSE /\ v_hist = <<>>
+LogStep(rec) == IF EmitHist THEN v_hist' = Append(v_hist, rec) ELSE UNCHANGED v_hist
+Next == /\ (EmitHist => Len(v_hist) < HistLen)
+        /\ \/ \E d \in Active, b \in 0..1 : \E e \in Univ[b + 1] :
+                /\ C!Deliver(d, b, e) /\ UNCHANGED <<v_ks, v_cloned>>
+                \* expected observable state after the call: reconstructed flags of both blocks and whether the object is returned
+                /\ LogStep([op |-> "deliver", dec |-> d, sbn |-> b, esi |-> e, memo |-> <<v_memo'[d][0], v_memo'[d][1]>>,
+                            answer |-> (v_memo'[d][0] /\ v_memo'[d][1])])
+           \/ ~v_cloned /\ C!Clone(1, 2) /\ v_cloned' = TRUE /\ UNCHANGED v_ks /\ LogStep([op |-> "clone", dec |-> 1, to |-> 2])
 Spec == Init /\ [][Next]_vars
 
+EmitBehaviour == EmitHist /\ Len(v_hist) = HistLen => PrintT(ToJson([steps |-> v_hist]))
 Answer(d) == IF C!Complete(d) THEN "object" ELSE "none"
 \* C08: what a decoder answers is a function of the sets it received, whatever the path
 SetDetermined == \A d \in Active, b \in 0..1 : v_memo[d][b] <=> C!Decodable(b, v_recv[d][b])
